@@ -20,4 +20,5 @@ Definition kel_ok (r : Z) : bool := param_16 (rt_kel (z2f r)) =? r.
 Definition int_ok (r : Z) : bool :=
   (param_16 (z2f r) =? r) && (py_round (z2f r) =? r) && (param_32 (z2f r) =? r).
 (* raw -> logical -> raw on durations and delays: 2^18 integer millisecond values *)
-Definition time_ok (d : Z) : bool := param_32 (time_raw (time_logical (z2f d))) =? d.
+Definition time_ok (d : Z) : bool :=
+  (param_32 (time_raw (time_logical (z2f d))) =? d) && (param_32 (z2f d) =? d).
